@@ -3,6 +3,7 @@ import json
 import os
 import re
 import shutil
+import subprocess
 import sys
 import time
 from multiprocessing import Pool
@@ -130,7 +131,7 @@ def gen_history(rng, hostile=True, clash_ok=True):
             steps.append(("w", "A", p, c))
             steps.append(("w", "B", p, c))
         elif k == 19:
-            steps.append(("ro", side, p))
+            steps.append(rng.pick([("ro", side, p), ("ro", side, p), ("hl", side, p), ("dall", side)]))
         else:
             steps.append(("s",))
             syncs += 1
@@ -175,6 +176,15 @@ def scripted_histories():
         H.append([("w", "A", "f", b"base"), ("w", "B", "f", b"base"), ("w", "A", "g", b"g1"), ("w", "B", "g", b"g1"), ("s",), ("w", "A", "f", b"AAA"), ("w", "B", "f", b"BBB"), ("w", side, "g", b"g2"), ("s",), ("w", side, "g", b"g1"), ("s",), ("s",)])
     # write-protected files are replaced, deleted and conflict-copied like any other
     H.append([("w", "A", "f", Z), ("w", "B", "f", Z), ("w", "A", "g", Y), ("w", "B", "g", Y), ("ro", "A", "f"), ("ro", "B", "f"), ("ro", "B", "g"), ("s",), ("w", "A", "f", X), ("ro", "A", "f"), ("d", "A", "g"), ("s",), ("w", "A", "f", b"a2"), ("w", "B", "f", b"b2"), ("ro", "A", "f"), ("ro", "B", "f"), ("s",), ("s",)])
+    # every file of one replica deleted (the replica itself must survive the propagated deletes)
+    for side in "AB":
+        H.append([("w", "A", "f", Z), ("w", "A", "d/h", Y), ("s",), ("dall", side), ("s",), ("s",), ("w", side, "f", X), ("s",)])
+    # 255 / 256 numbered names beside an edited conflict-copy are taken, then the old loser comes back
+    for n in (3, 255, 256):
+        for fresh in (b"n1", b"n2", b"n3", b"n4"):
+            H.append([("w", "A", "f", b"base"), ("w", "B", "f", b"base"), ("s",), ("w", "A", "f", b"a1"), ("w", "B", "f", b"b1"), ("s",), ("wc", "A", 0, b"user-edited-conflict-copy"), ("fill", "A", 0, n), ("s",), ("rc", "B", 0, fresh), ("s",), ("s",)])
+    # the receiving file has a second hard link elsewhere
+    H.append([("w", "A", "f", Z), ("w", "B", "f", Z), ("w", "A", "g", Y), ("w", "B", "g", Y), ("s",), ("hl", "B", "f"), ("hl", "A", "g"), ("w", "A", "f", X), ("d", "B", "g"), ("s",), ("s",)])
     # recreate after delete propagated
     H.append([("w", "A", "f", Z), ("s",), ("d", "A", "f"), ("s",), ("w", "B", "f", Z), ("s",), ("d", "B", "f"), ("s",), ("w", "A", "f", Z), ("w", "B", "f", Z), ("s",), ("d", "A", "f"), ("s",)])
     return H
@@ -205,6 +215,34 @@ def apply_step(sb, step, mtime_of=None):
             os.unlink(full)
         except OSError:
             pass
+        return None
+    if kind == "fill":
+        # user-created files named like numbered conflict-copies: <copy>-1 .. <copy>-n, all with contents of their own
+        _, side, k, n = step
+        cm = content_map(snapshot(sb.side(side)))
+        cands = sorted(p for p in cm if CONFLICT_RE.match(p))
+        if not cands:
+            return None
+        p = cands[k % len(cands)]
+        for i in range(1, n + 1):
+            write_file(os.path.join(sb.side(side), "%s-%d" % (p, i)), b"user file beside a conflict-copy #%d" % i)
+        return None
+    if kind == "hl":
+        # a second name for the file's inode outside both replicas (deduplicated storage, backups made with cp -l)
+        _, side, p = step
+        try:
+            os.makedirs(os.path.join(sb.root, "links"), exist_ok=True)
+            os.link(os.path.join(sb.side(side), p), os.path.join(sb.root, "links", "%s-%d" % (side, len(os.listdir(os.path.join(sb.root, "links"))))))
+        except OSError:
+            pass
+        return None
+    if kind == "dall":
+        _, side = step
+        for p in sorted(content_map(snapshot(sb.side(side)))):
+            try:
+                os.unlink(os.path.join(sb.side(side), p))
+            except OSError:
+                pass
         return None
     if kind == "ex":
         _, side, p, what = step
@@ -261,7 +299,7 @@ def apply_step(sb, step, mtime_of=None):
 
 def swap_step(step):
     sw = {"A": "B", "B": "A"}
-    if step[0] in ("w", "d", "wc", "rc", "ro", "ex"):
+    if step[0] in ("w", "d", "wc", "rc", "ro", "ex", "fill", "hl", "dall"):
         return (step[0], sw[step[1]]) + tuple(step[2:])
     return step
 
@@ -547,6 +585,9 @@ def c06_checks(sb, info, b3, swapped, viol, cnt, tainted):
     lc = info["last_common"]
     brief = info["result"].brief()
     tainted |= d8_touched(info)
+    for sd in "AB":
+        if not os.path.isdir(sb.side(sd)):
+            viol("C06|replica-root-missing-after-completed-run", {"side": sd, "run": brief})
     if post["A"] != post["B"]:
         diff = sorted(set(post["A"].items()) ^ set(post["B"].items()))[:6]
         viol("C06|diverged-after-completed-run", {"diff": diff, "run": brief})
@@ -1109,22 +1150,29 @@ def c08_scenarios():
     S["first-run-no-archive"] = [("w", "A", "only-a", Z), ("w", "B", "only-b", Y), ("w", "A", "both", b"a"), ("w", "B", "both", b"b"), ("w", "A", "same", Z), ("w", "B", "same", Z)]
     S["five-paths"] = [("w", "A", "p1", b"1"), ("w", "B", "p1", b"1"), ("w", "A", "p2", b"2"), ("w", "B", "p2", b"2"), ("w", "A", "p3", b"3"), ("w", "B", "p3", b"3"), ("w", "A", "p4", b"4"), ("w", "B", "p4", b"4"), ("s",), ("w", "A", "p1", b"1a"), ("w", "B", "p2", b"2b"), ("d", "A", "p3"), ("w", "A", "p4", b"4a"), ("w", "B", "p4", b"4b"), ("w", "B", "d/p5", b"5")]
     S["readonly-files"] = [("w", "A", "f", Z), ("w", "B", "f", Z), ("w", "A", "g", Y), ("w", "B", "g", Y), ("w", "A", "h", b"h"), ("w", "B", "h", b"h"), ("s",), ("w", "A", "f", b"f-new"), ("ro", "A", "f"), ("ro", "B", "f"), ("d", "A", "g"), ("ro", "B", "g"), ("w", "A", "h", b"h-a"), ("w", "B", "h", b"h-b"), ("ro", "A", "h"), ("ro", "B", "h")]
+    S["hardlinked-destinations"] = [("w", "A", "f", Z), ("w", "B", "f", Z), ("w", "A", "big", big), ("w", "B", "big", big), ("w", "A", "g", Y), ("w", "B", "g", Y), ("s",), ("hl", "B", "f"), ("hl", "B", "big"), ("hl", "A", "g"), ("w", "A", "f", b"f-new"), ("w", "A", "big", big[::-1]), ("w", "B", "g", b"g-new")]
     S["big-file-640K"] = [("w", "A", "keep", Z), ("w", "B", "keep", Z), ("s",), ("w", "A", "big", big)]
     S["big-replace"] = [("w", "A", "big", big), ("w", "B", "big", big), ("s",), ("w", "B", "big", big[::-1])]
     return S
 
 
 def save_state(sb, save):
+    """One `cp -a` invocation for all parts, so that hard links between a replica and links/ survive."""
     rmtree(save)
     os.makedirs(save)
-    for d in ("A", "B", "home"):
-        copy_tree(os.path.join(sb.root, d), os.path.join(save, d))
+    parts = [os.path.join(sb.root, d) for d in ("A", "B", "home", "links") if os.path.lexists(os.path.join(sb.root, d))]
+    r = subprocess.run(["cp", "-a", "--"] + parts + [save + "/"], capture_output=True, text=True)
+    if r.returncode != 0:
+        raise OSError("cp -a: " + r.stderr[-300:])
 
 
 def restore_state(sb, save):
-    for d in ("A", "B", "home"):
+    for d in ("A", "B", "home", "links"):
         rmtree(os.path.join(sb.root, d))
-        copy_tree(os.path.join(save, d), os.path.join(sb.root, d))
+    parts = [os.path.join(save, d) for d in sorted(os.listdir(save))]
+    r = subprocess.run(["cp", "-a", "--"] + parts + [sb.root + "/"], capture_output=True, text=True)
+    if r.returncode != 0:
+        raise OSError("cp -a: " + r.stderr[-300:])
 
 
 def trace_monitor(evs, sb, label):
